@@ -17,6 +17,7 @@ Python builds objects, calls the API and projects results; every verdict is TLC'
 import os
 import random
 import re
+import time
 from concurrent.futures import ThreadPoolExecutor
 from fractions import Fraction
 
@@ -30,6 +31,7 @@ CONSTANTS N = %(n)d
 %(view)sINVARIANT DesignOK
 INVARIANT ZoneIsChain
 INVARIANT PrecAgree
+INVARIANT QualAgree
 INVARIANT TypeOK
 """
 
@@ -245,11 +247,12 @@ def compress(ops):
     return [{"op": "build", "ts": [o["t"] for o in ops[:k]], "calls": calls, "obs": ops[-1]["obs"]}]
 
 
-def guarded(plan):
+def guarded(plan, limit=10):
     """replay under a time limit; returns ("ok", ops) | ("timeout", None) | ("raise", repr)."""
     try:
-        with time_limit(10):
-            return ("ok", replay(plan))
+        with time_limit(limit):
+            ops = replay(plan)
+            return ("ok", compress(ops) if plan.get("macro") else ops)
     except ImplTimeout:
         return ("timeout", None)
     except MachineryError:
@@ -258,9 +261,13 @@ def guarded(plan):
         return ("raise", type(ex).__name__ + ": " + str(ex)[:200])
 
 
+_TIMEOUTS = None  # multiprocessing.Value shared with the workers: time-outs seen so far (circuit breaker)
+
+
 def _run_batch(batch):
     """Worker: batch = (kind, salt, items).  kind "case": items = [(id, case)], the plan is derived here
-    from the case and a generator seeded by (salt, id); kind "plan": items = [(id, plan)]."""
+    from the case and a generator seeded by (salt, id); kind "plan": items = [(id, plan)].
+    After 6 time-outs overall the remaining cases are skipped (reported, never counted as passed)."""
     kind, salt, items = batch
     out = []
     for tid, x in items:
@@ -269,12 +276,16 @@ def _run_batch(batch):
             small = x["n"] <= 3 or x["fam"] == "devs"
             cls = ["tn", "m"] if small else [rng.choice(["tn", "m"])]
             every = small and (x["fam"] == "rel" or rng.random() < 0.25)
-            plan = {"cls": cls, "n": x["n"], "case": x, "steps": plan_of_case(x, rng, every)}
+            plan = {"cls": cls, "n": x["n"], "case": x, "macro": not small, "steps": plan_of_case(x, rng, every)}
         else:
             plan = x
+        if _TIMEOUTS is not None and _TIMEOUTS.value >= 6:
+            out.append((tid, "skipped", None, plan))
+            continue
         status, r = guarded(plan)
-        if status == "ok" and kind == "case" and not small:
-            r = compress(r)
+        if status == "timeout" and _TIMEOUTS is not None:
+            with _TIMEOUTS.get_lock():
+                _TIMEOUTS.value += 1
         out.append((tid, status, r, None if status == "ok" else plan))
     return out
 
@@ -404,8 +415,11 @@ def enumerate_cases(ctx, jobs, parallel):
         os.remove(out)
         return rows
 
+    t0 = time.time()
     with ThreadPoolExecutor(max_workers=parallel) as ex:
-        return list(ex.map(one, list(enumerate(jobs))))
+        out = list(ex.map(one, list(enumerate(jobs))))
+    ctx.notes["enum_s"] = round(ctx.notes.get("enum_s", 0) + time.time() - t0, 1)
+    return out
 
 
 def judge(ctx, label, traces, n, workers):
@@ -422,10 +436,10 @@ def judge(ctx, label, traces, n, workers):
     return res
 
 
-def other_feature(trace):
-    """Input feature for signatures: the shape of the first non-precedence temporal constraint."""
+def other_feature(trace, upto):
+    """Input feature for signatures: the shape of the first non-precedence temporal constraint stated so far."""
     cs = []
-    for o in trace["ops"]:
+    for o in trace["ops"][:upto]:
         if o["op"] == "cons":
             cs.append(o["c"])
         elif o["op"] == "build":
@@ -451,7 +465,7 @@ def report(ctx, res, traces, label):
         if p and p[0] == "FAIL":
             t = byid[p[1]]
             ob = t["ops"][p[3] - 1]["obs"][p[4] - 1]
-            sig = "%s|%s|%s" % (p[2], ob["cls"], other_feature(t))
+            sig = "%s|%s|%s" % (p[2], ob["cls"], other_feature(t, p[3]))
             if p[2] == "raises":
                 sig += "|" + (ob["po"]["x"] or ob["to"]["x"])
             ctx.violation(
@@ -469,14 +483,45 @@ def bind(ctx, label, kind, salt, items, n, pool, workers):
     B = 500
     batches = [(kind, salt, items[i : i + B]) for i in range(0, len(items), B)]
     traces = []
+    t0 = time.time()
+    late = []  # time-outs and skipped cases
     for part in pool.imap(_run_batch, batches):
         for tid, status, r, plan in part:
             if status == "ok":
                 traces.append({"id": tid, "ops": r})
-            elif status == "timeout":
-                ctx.violation("impl-nonterminating", "building/querying a task network does not return within 10 s", {"plan": plan})
+            elif status in ("timeout", "skipped"):
+                late.append((tid, status, plan))
             else:
                 ctx.violation("impl-raises|" + r.split(":")[0], "building a task network raises " + r, {"plan": plan})
+    if late:
+        # a loaded machine can stall a worker: confirm up to 3 time-outs here with a generous limit
+        confirmed = False
+        redo = []
+        for tid, status, plan in late:
+            if status == "timeout" and not confirmed and len(redo) < 3:
+                st2, r = guarded(plan, 90)
+                redo.append((tid, st2, r, plan))
+                confirmed = st2 == "timeout"
+        ctx.notes["timeouts_retried"] = ctx.notes.get("timeouts_retried", 0) + len(redo)
+        if confirmed:
+            for tid, status, plan in late:
+                if status == "timeout":
+                    ctx.violation("impl-nonterminating", "building/querying a task network does not return (10 s, confirmed with 90 s)", {"plan": plan})
+            ctx.notes["cases_skipped_after_timeouts"] = ctx.notes.get("cases_skipped_after_timeouts", 0) + sum(1 for x in late if x[1] == "skipped")
+        else:
+            # spurious: run everything that is still open in this process
+            if _TIMEOUTS is not None:
+                _TIMEOUTS.value = 0
+            done = {tid for tid, _, _, _ in redo}
+            redo += [(tid,) + guarded(plan, 90) + (plan,) for tid, status, plan in late if tid not in done]
+            for tid, st2, r, plan in redo:
+                if st2 == "ok":
+                    traces.append({"id": tid, "ops": r})
+                elif st2 == "timeout":
+                    ctx.violation("impl-nonterminating", "building/querying a task network does not return within 90 s", {"plan": plan})
+                else:
+                    ctx.violation("impl-raises|" + r.split(":")[0], "building a task network raises " + r, {"plan": plan})
+    ctx.notes["replay_s"] = round(ctx.notes.get("replay_s", 0) + time.time() - t0, 1)
     if not traces:
         return
     ctx.cov["evaluations"] += sum(len(o["obs"]) for t in traces for o in t["ops"])
@@ -551,10 +596,11 @@ def run(ctx):
     # ---- T1: design check -------------------------------------------------------------------
     if q:
         t1(ctx, "A", dict(n=3, maxcons=3, universe="UniverseA", view=""), W)
-        t1(ctx, "C", dict(n=4, maxcons=20, universe="UniverseC", view="VIEW SetView\n"), W)
+        t1(ctx, "B", dict(n=3, maxcons=20, universe="UniverseB", view="VIEW SetView\n"), W)
     else:
         t1(ctx, "A", dict(n=3, maxcons=4, universe="UniverseA", view=""), W)
         t1(ctx, "B", dict(n=4, maxcons=20, universe="UniverseB", view="VIEW SetView\n"), W)
+        t1(ctx, "C", dict(n=5, maxcons=4, universe="UniverseC", view="VIEW SetView\n"), W)
     judge_alive(ctx, W)
     # ---- T2: enumerated networks --------------------------------------------------------------
     jobs = [
@@ -582,6 +628,8 @@ def run(ctx):
     big_jobs = [j for j in jobs if j not in small_jobs]
     par = 6 if q else 8
     ncases = 0
+    global _TIMEOUTS
+    _TIMEOUTS = multiprocessing.get_context("fork").Value("i", 0)
     pool = multiprocessing.get_context("fork").Pool(6 if q else 12)
     try:
         groups = enumerate_cases(ctx, small_jobs, par)
@@ -621,6 +669,7 @@ def run(ctx):
         pool.terminate()
         pool.join()
     ctx.cov["exhaustive"] = True
+    ctx.cov["phase_wall_s"] = dict(ctx.notes)
     ctx.cov["rule"] = (
         "T1: exhaustive BFS of HTNOrder (ordering() as written vs the declarative definitions) over every constraint "
         "list within the stated constants. T2: TLC (HTNOrderEnum) emits every precedence relation incl. self-loops over "
